@@ -579,9 +579,36 @@ func c14TablesFor(c *Ctx, pr *PropertyRun, prop string) {
 	// Response.Err
 	if fn := p.MustFunc(r, pkgInternal, "(*Response).Err"); fn != nil {
 		run(DTXSpec{Name: "Response.Err", Entry: fn,
-			Sym:     SymSpec{IntDomain: codeDomain, NonNil: func(k string) bool { return k == "resp" }},
-			Args:    func(in *Interp) []Val { return []Val{in.symOf(fn.Params[0].Type(), "resp")} },
-			Observe: errObs,
+			Sym:  SymSpec{IntDomain: codeDomain, NonNil: func(k string) bool { return k == "resp" }},
+			Args: func(in *Interp) []Val { return []Val{in.symOf(fn.Params[0].Type(), "resp")} },
+			Observe: func(in *Interp, res Val, pan *panicOutcome) string {
+				out := errObs(in, res, pan)
+				if !strings.HasPrefix(out, "HTTPError(") {
+					return out
+				}
+				// what the failure carries: the DAV:error condition of the
+				// response (found by errors.As) and its description
+				cond := "no"
+				cur := res
+				for i := 0; i < 10; i++ {
+					if iv, ok := cur.(Iface); ok {
+						if pt, isP := iv.Dyn.(*types.Pointer); isP && isNamed(pt.Elem(), pkgInternal, "Error") {
+							cond = "yes"
+							break
+						}
+					}
+					if _, inner, ok := httpErrOf(in, cur); ok {
+						cur = inner
+						continue
+					}
+					w, ok := in.unwrapErr(cur, nil)
+					if !ok {
+						break
+					}
+					cur = w
+				}
+				return out + " condition=" + cond
+			},
 			Oracle: func(env *OracleEnv) ([]string, bool) {
 				if !env.Bool("resp.Status!=nil") {
 					return []string{"nil"}, true
@@ -590,7 +617,13 @@ func c14TablesFor(c *Ctx, pr *PropertyRun, prop string) {
 				if code/100 == 2 {
 					return []string{"nil"}, true
 				}
-				return []string{fmt.Sprintf("HTTPError(%d)", code)}, true
+				// a DAV:error element the response carries is in the chain,
+				// whatever else the response says (a description next to it)
+				cond := "no"
+				if env.Bool("resp.Error!=nil") {
+					cond = "yes"
+				}
+				return []string{fmt.Sprintf("HTTPError(%d) condition=%s", code, cond)}, true
 			}}, 5)
 	}
 	// Response.Path: the error is Err()'s whenever Err() is non-nil; the path
